@@ -239,6 +239,26 @@ def fam_transitions(rng, pid, count):
     return out
 
 
+def fam_disorder(rng, pid, count):
+    """beyond the property (it quantifies over non-decreasing streams): one candle goes back in
+    time; the library must then behave as the specification's walk does -- merge it when it still
+    belongs to the forming bucket, raise InvalidCandleOrder otherwise"""
+    out = []
+    for sc in fam_manager(rng, pid, count, collapse_ops=False, hexshare=0.0, tag="d"):
+        st = list(sc["stream"])
+        if len(st) < 6 or not sc["inds"][0].timeframe:
+            continue
+        i = rng.randrange(3, len(st))
+        back = rng.choice([1, 2, 30, 600, 7200, 100000])
+        st[i] = (max(0, st[i - 1][0] - back),) + st[i][1:]
+        sc["stream"] = st
+        sc["id"] = sc["id"].replace("/mgrd/", "/disorder/")
+        sc["clause_props"] = {"exc": ["C03"], "stage": ["C03"], "def": [], "value": [], "gap": []}
+        sc["mute"] = ["def_shown", "value", "gap", "struct_between", "repaint"]
+        out.append(sc)
+    return out
+
+
 TZS = ["UTC", "Asia/Kolkata", "Asia/Kathmandu", "America/New_York", "Europe/London",
        "Australia/Lord_Howe", "Pacific/Chatham", "America/St_Johns"]
 
@@ -295,7 +315,7 @@ def _scenarios(pid, tier, rng):
                 + fam_chain(rng, pid, k(40, 240), targets=("STDEV", "TSI", "SMA", "EMA", "RSI", "BBANDS", "ROC"),
                             reverse=True, twins=()))
     if pid == "C03":
-        return fam_manager(rng, pid, k(300, 2000))
+        return fam_manager(rng, pid, k(270, 1800)) + fam_disorder(rng, pid, k(30, 200))
     if pid == "C12":
         return fam_manager(rng, pid, k(300, 2000), fills=(True,), twins=("batch",))
     if pid == "C11":
@@ -594,6 +614,10 @@ def read_batch(rng, sc, names, kinds, lens_hint, hexobj, touches=True):
             for w in TOUCHES:
                 rd.append((w, i, "", NOIDX))
     if hexobj:
+        for c in sc["inds"]:
+            rd.append(("hex.candles", -1, (c.timeframe or "").upper(), NOIDX))
+        rd.append(("hex.candles", -1, "T77", NOIDX))       # unknown timeframe: the default candles
+        rd.append(("hex.timeframes", -1, "", NOIDX))
         rd.append(("hex.reading", -1, "nonexistent", NOIDX))
         rd.append(("hex.reading_as_list", -1, "nonexistent", NOIDX))
         if touches:
